@@ -90,6 +90,7 @@ func checkC01(c *Ctx) {
 	c.checkNilPaths(br)
 	c.checkReflectUse(br)
 	c.checkPrototypes(br)
+	c.checkNilFields(br)
 	c.checkReadRetry()
 	c.checkSetupState()
 	c.checkNesting()
